@@ -199,6 +199,20 @@ def run(chk):
             K.must_pass(chk, "C09.complete", dsf, [f_], lambda n_: (n_.kind == "test" and id(n_.ast) in decide) or K.node_has(n_, "self._mid_member = $V", "exec"),
                         f"{cname}.decompress_sync: the member-boundary flag is decided after input was last fed to a decompressor",
                         construct=K.short(f_.ast, 60), missing="the `_mid_member` decision after the members walk")
+    # the member cap bounds the work of one call (the output budget suspends the walk every few members); counted per stream it would refuse
+    # valid bodies - RFC 1952 / 8878 put no limit on the number of members (`cat *.gz`, pigz -i, BGZF, multi-frame zstd)
+    mem = repo.func(CU, "ConcatDecompressionHandler._decompress_members")
+    capc = [c for c in ast.walk(mem.node) if isinstance(c, ast.Compare) and any("MAX_DECOMPRESS_MEMBERS" in norm.raw(x) for x in [c.left] + c.comparators)]
+    if not capc:
+        chk.analysis_error("C09.members: the member cap test was not found in _decompress_members")
+    for c in capc:
+        cnt = c.left if "MAX_DECOMPRESS_MEMBERS" not in norm.raw(c.left) else c.comparators[0]
+        inits = [v for _d, v in norm.fn_defs(mem.node).defs.get(cnt.id, [])] if isinstance(cnt, ast.Name) else []
+        if isinstance(cnt, ast.Name) and any(isinstance(v, ast.Constant) for v in inits if v is not None):
+            chk.ok("C09.members", c, f"the member cap counts the members of one call (`{cnt.id}` starts over with every call)")
+        else:
+            chk.violation("C09.members", c, norm.raw(c), "a counter local to the call",
+                          f"the member cap compares `{norm.raw(cnt)}`, which lives across calls: the cap becomes a limit on the whole stream, and a valid body of more than {1024} concatenated members (each producing output, arriving over several reads) is decoded up to the cap and then refused with a payload error")
     # ---- C09.window: the zstd decoder's window is bounded too (it is memory the output limit never sees) ---------------------------------------
     zs = CUm.classes.get("ZSTDDecompressor")
     if zs is not None:
